@@ -212,6 +212,10 @@ def run(chk, replay=None):
         r = json.load(open(replay))
         lines.append(r["replay"]["line"])
     else:
+        cdir = os.path.join(C.ROOT, "corpus", "C13")
+        if os.path.isdir(cdir):
+            for f in sorted(os.listdir(cdir)):
+                lines += [l.strip() for l in open(os.path.join(cdir, f)) if l.strip() and not l.startswith("#")]
         M1, M2 = D(111.0), D(222.0)
         for x in [D(x) for x in B]:
             lines.append(f"run real {x[1:]} V V V V V")
